@@ -12,6 +12,10 @@
   (eolCount_of_single_line_tokens; `NoMultiLineToken x`, a decidable condition on the input bytes, implied by
   "no backslash directly followed by a newline"), which gives the three clauses under that SOURCE condition
   (format_parse_syntax_src, format_idempotent_src, format_preserves_directives_src and its go.work twin);
+  every input the STRICT parsers (`Parse`, `ParseWork`) accept satisfies that source condition
+  (strict_noMultiLineToken, strict_noMultiLineToken_work), so for strictly accepted inputs the three clauses hold
+  without it (format_parse_syntax_strict, format_idempotent_strict, format_preserves_directives_strict and the
+  go.work twins);
   the idempotence clause is FALSE in general
   (C02_violated_format_not_idempotent, eol_single_comment_not_sufficient).  What remains is listed in
   lean/PENDING.md.
@@ -26,6 +30,7 @@ import ModVerif.Proofs.ModfileEolWork
 import ModVerif.Proofs.ModfileSrcDir
 import ModVerif.Proofs.ModfileSrcBytes
 import ModVerif.Proofs.ModfileFmtCom
+import ModVerif.Proofs.ModfileStrictTokDir
 namespace ModVerif.Props.C02
 open ModVerif ModVerif.Modfile
 
@@ -872,5 +877,156 @@ example :
           | .error _ => false)
      | .error _ => false) = true ∧ Proofs.ModfileSrc.NoMultiLineToken x := by
   exact ⟨by decide +kernel, by decide +kernel⟩
+
+/-! ### Strictly accepted inputs: the source condition is automatic
+
+  Helper files `Proofs/ModfileStrictTok{Lex,Dir}.lean`.  The STRICT directive layer never accepts a token that spans
+  two source lines: every argument position of every verb is matched against a pattern whose matches do not start
+  with a double quote (`GoVersionRE`, `ToolchainRE`, the godebug key=value test, the fixed tokens `=>` `[` `,` `]`) or
+  goes through `parseString` (directly or inside `parseVersion`), which hands a token starting with `"` to
+  `strconv.Unquote`, and `Unquote` rejects a newline byte; left-over tokens, unknown verbs and unknown blocks are
+  errors in strict mode; verbs and block headers are fixed words.  A token the lexer delivers that does not start
+  with `"` cannot contain a newline (identifiers, punctuation, `//` texts and back-quoted strings never do).  A
+  backward pass over the five parser loops transfers this from the tokens of the tree to every token of the source
+  (`Proofs.ModfileStrictTok.parse_noMultiLineToken`).  Hence the hypothesis `NoMultiLineToken x` of the `_src`
+  theorems holds for every input `Parse` / `ParseWork` accepts, and the inputs on which clause 2 fails
+  (`C02_violated_format_not_idempotent`) are confined to what only the syntax layer / `ParseLax` accepts. -/
+
+open Proofs.ModfileSrc in
+/-- ★ `strict_noMultiLineToken`: an input the STRICT go.mod parser accepts — with any version fixer, the fixer only
+    sees values `parseString` returned — has no token that spans two source lines. -/
+theorem strict_noMultiLineToken (name x : Bytes) (fix : Option Fixer) (f : Modfile.File)
+    (h : parseToFile name x fix true = .ok f) : NoMultiLineToken x :=
+  Proofs.ModfileStrictTok.strict_noMultiLineToken h
+
+open Proofs.ModfileSrc in
+/-- ★ `strict_noMultiLineToken_work`: the same for `ParseWork` (always strict). -/
+theorem strict_noMultiLineToken_work (name x : Bytes) (fix : Option Fixer) (f : WorkFile)
+    (h : parseWork name x fix = .ok f) : NoMultiLineToken x :=
+  Proofs.ModfileStrictTok.strict_noMultiLineToken_work h
+
+open Proofs.ModfileStrictTok in
+/-- one strict `File.add` step that reports no error saw only "quote-good" tokens (`DG t`: if `t` starts with a
+    double quote it contains no newline byte): the verb is one of the nine fixed words and every argument position
+    was validated -/
+theorem add_step_tokens_validated (st : AddState) (block : Option Comments) (l : Line) (verb : Bytes)
+    (args : List Bytes) (fix : Option Fixer) (h : (File.add st block l verb args fix true).1.errsRev = []) :
+    DG verb ∧ ∀ t ∈ args, DG t :=
+  add_dg h
+
+example : (File.add {} none { token := [B "require", B "\"a.b/c\"", B "v1.0.0"] } (B "require")
+    [B "\"a.b/c\"", B "v1.0.0"] none true).1.errsRev = [] := by decide +kernel
+
+open Proofs.ModfileStrictTok Proofs.ModfileSrc in
+/-- the tree-to-source transfer: if every token of the tree `parse` returns (line tokens, block header tokens) is
+    quote-good, no token of the source spans two source lines -/
+theorem noMultiLineToken_of_tree_tokens {name x : Bytes} {t : FileSyntax} (h : parse name x = .ok t)
+    (hd : ∀ s ∈ t.stmts, ∀ tok ∈ allToks s, DG tok) : NoMultiLineToken x :=
+  parse_noMultiLineToken h hd
+
+open Proofs.ModfileFmtDir in
+/-- ★ `format_preserves_directives_strict` (strict go.mod) — clause 3, comment-derived values included, WITHOUT a
+    condition on the source text or the tree: if the strict parser accepts `x` as a well-formed file `f`, it accepts
+    `Format(f.Syntax)`, and the directive values — module path, go, toolchain, godebug, require with the indirect
+    flag, exclude, replace, retract intervals, tool — `Module.Deprecated` and every `Retract.Rationale` are identical;
+    fixer restrictions as in `format_preserves_directives_partial2` (still missing for the full statement:
+    `fixRetract` with a fixer and fixers that return the empty string, see lean/PENDING.md). -/
+theorem format_preserves_directives_strict (name x : Bytes) (fix : Option Fixer) (f : Modfile.File)
+    (h : parseToFile name x fix true = .ok f) (hwf : WellFormed f)
+    (hfix : FixOK fix) (hne : FixNE fix) (hret : fix ≠ none → f.retract = []) :
+    ∃ f', parseToFile name (format f.syn) fix true = .ok f' ∧ values f' = values f ∧
+      f'.module.map (·.deprecated) = f.module.map (·.deprecated) ∧
+      f'.retract.map (·.rationale) = f.retract.map (·.rationale) :=
+  format_preserves_directives_src3 name x fix f h (strict_noMultiLineToken name x fix f h) hwf hfix hne hret
+
+open Proofs.ModfileFmtDir Proofs.ModfileFmtWork in
+/-- ★ `format_preserves_directives_work_strict` (go.work) — the same for `ParseWork`, without a condition on the
+    source text or the tree. -/
+theorem format_preserves_directives_work_strict (name x : Bytes) (fix : Option Fixer) (f : WorkFile)
+    (h : parseWork name x fix = .ok f) (hwf : WorkWellFormed f) (hfix : FixOK fix) (hne : FixNE fix) :
+    ∃ f', parseWork name (format f.syn) fix = .ok f' ∧ workValues f' = workValues f :=
+  format_preserves_directives_work_src name x fix f h (strict_noMultiLineToken_work name x fix f h) hwf hfix hne
+
+open Proofs.ModfileEol Proofs.ModfileFmtTree in
+/-- ★ `format_parse_syntax_strict` — clause 1 for every input the STRICT go.mod parser accepts (`t` is the tree of
+    the syntax layer for that input): the formatted output parses again to the same tree in normal form.  (Clause 1
+    for inputs only the syntax layer accepts stays `format_parse_syntax_src`.) -/
+theorem format_parse_syntax_strict (name x : Bytes) (fix : Option Fixer) (f : Modfile.File) (t : FileSyntax)
+    (hs : parseToFile name x fix true = .ok f) (h : parse name x = .ok t) :
+    ∃ t', parse name (format t) = .ok t' ∧ eraseFile t' = normFileE t ∧ EolCount t' :=
+  format_parse_syntax_src name x t h (strict_noMultiLineToken name x fix f hs)
+
+/-- ★ `format_idempotent_strict` — clause 2 for every input the STRICT go.mod parser accepts: formatting the re-parsed
+    formatted output gives the same bytes.  The inputs on which clause 2 fails are rejected by `Parse` (example
+    below). -/
+theorem format_idempotent_strict (name x : Bytes) (fix : Option Fixer) (f : Modfile.File) (t t' : FileSyntax)
+    (hs : parseToFile name x fix true = .ok f) (h : parse name x = .ok t) (h' : parse name (format t) = .ok t') :
+    format t' = format t :=
+  format_idempotent_src name x t t' h (strict_noMultiLineToken name x fix f hs) h'
+
+open Proofs.ModfileEol Proofs.ModfileFmtTree in
+/-- clause 1 for every input `ParseWork` accepts -/
+theorem format_parse_syntax_work_strict (name x : Bytes) (fix : Option Fixer) (f : WorkFile) (t : FileSyntax)
+    (hs : parseWork name x fix = .ok f) (h : parse name x = .ok t) :
+    ∃ t', parse name (format t) = .ok t' ∧ eraseFile t' = normFileE t ∧ EolCount t' :=
+  format_parse_syntax_src name x t h (strict_noMultiLineToken_work name x fix f hs)
+
+/-- clause 2 for every input `ParseWork` accepts -/
+theorem format_idempotent_work_strict (name x : Bytes) (fix : Option Fixer) (f : WorkFile) (t t' : FileSyntax)
+    (hs : parseWork name x fix = .ok f) (h : parse name x = .ok t) (h' : parse name (format t) = .ok t') :
+    format t' = format t :=
+  format_idempotent_src name x t t' h (strict_noMultiLineToken_work name x fix f hs) h'
+
+/-- the syntax tree exists whenever the typed parsers accept (the hypothesis `parse name x = .ok t` of the four
+    theorems above only names it) -/
+theorem parse_of_strict (name x : Bytes) (fix : Option Fixer) (f : Modfile.File)
+    (hs : parseToFile name x fix true = .ok f) : ∃ t, parse name x = .ok t :=
+  Proofs.ModfileStrictTok.parse_of_parseToFile hs
+
+theorem parse_of_work (name x : Bytes) (fix : Option Fixer) (f : WorkFile)
+    (hs : parseWork name x fix = .ok f) : ∃ t, parse name x = .ok t :=
+  Proofs.ModfileStrictTok.parse_of_parseWork hs
+
+/-- non-vacuity of the `_strict` theorems (go.mod, no fixer and with `canonFix`; go.work): files with quoted strings
+    (one with an escape), end-of-line comments, `// indirect`, a block, a retraction with rationale and a deprecation
+    comment are strictly accepted as well-formed files -/
+example :
+    (let x := B "// Deprecated: gone\nmodule \"example.com/m\" // mod\ngo 1.21\ntoolchain go1.21.0\ngodebug a=b\nrequire (\n\t\"a.b/c\\x41\" v1 // indirect\n\td.e/f v1.2.3\n)\nexclude a.b/c v1.2\nreplace a.b/c => \"./x y\" // r\nretract [v1.0.0, v1.1] // why\ntool a.b/c/cmd\n"
+     (match parseToFile (B "go.mod") x none true with
+      | .ok f => Proofs.ModfileFmtDir.wellFormedB f
+      | .error _ => false) = true) ∧
+    (let x := B "module example.com/m\nrequire \"a.b/c\" v1 // indirect\nreplace a.b/c v1 => d.e/f v2.0\n"
+     (match parseToFile (B "go.mod") x (some canonFix) true with
+      | .ok f => Proofs.ModfileFmtDir.wellFormedB f && f.retract.isEmpty
+      | .error _ => false) = true) ∧
+    (let x := B "go 1.21 // g\nuse (\n\t\"./x y\" // first\n\t./z\n) // done\nreplace a.b/c v1.2 => \"../c\" // r\n"
+     (match parseWork (B "go.work") x none with
+      | .ok f => Proofs.ModfileFmtWork.workWellFormedB f
+      | .error _ => false) = true) := by
+  exact ⟨by decide +kernel, by decide +kernel, by decide +kernel⟩
+
+/-- "strict" cannot be weakened: a quoted string with a backslash-newline is rejected by the strict parser in every
+    argument position it could take — as a `parseString` argument (`invalid quoted string`), as a surplus argument
+    (usage error), in an unknown directive — and likewise by `ParseWork`; but `ParseLax` ACCEPTS the last file (it
+    ignores unknown directives), whose token `"p\⏎q"` spans two source lines, and so does the syntax layer.  The real
+    `modfile.Parse` / `modfile.ParseLax` behave identically (checked with the harness: `invalid-quoted-string`,
+    `toolchain-args`, `unknown-directive`; `ok` for `ParseLax`). -/
+example :
+    (∀ x ∈ [B "module \"a.b/c\\\nd\"\n", B "module a.b/c\nrequire \"x.y/z\\\n\" v1.0.0\n",
+            B "module a.b/c\ntoolchain go1.21 \"x\\\ny\"\n", B "module a.b/c\nx \"p\\\nq\" // c\n"],
+      (match parseToFile (B "go.mod") x none true with
+       | .ok _ => false
+       | .error _ => true) = true ∧ ¬ Proofs.ModfileSrc.NoMultiLineToken x) ∧
+    (match parseWork (B "go.work") (B "go 1.21\nuse \"./a\\\nb\"\n") none with
+     | .ok _ => false
+     | .error _ => true) = true ∧
+    (let x := B "module a.b/c\nx \"p\\\nq\" // c\n"
+     (match parseToFile (B "go.mod") x none false with
+      | .ok _ => true
+      | .error _ => false) = true ∧
+     (match parse (B "go.mod") x with
+      | .ok _ => true
+      | .error _ => false) = true) := by
+  refine ⟨by decide +kernel, by decide +kernel, by decide +kernel, by decide +kernel⟩
 
 end ModVerif.Props.C02
